@@ -180,7 +180,7 @@ m("C08-new-raise", "C08", "iteration_graph/_write_sparse_ir.py",
   "    layer_being_allocated = output.layer + len(dense_dimensions) + 1\n    if len(dense_dimensions) > 2:\n        raise ValueError(\"too many dense dimensions\")\n", "C08.exception-escape")
 # ---------------------------------------------------------------- C09
 m("C09-no-permutation", "C09", "tensor.py",
-  "        level_dimensions = tuple(dimensions[i] for i in format.ordering)\n", "        level_dimensions = dimensions\n", "C09.axis-typing")
+  "        level_dimensions = tuple(dimensions[i] for i in format.ordering)\n", "        level_dimensions = dimensions\n", "C09.construction-semantics")
 m("C09-taco-vals-dimension", "C09", "tensor.py",
   "            if modes[i_dimension] == Mode.dense:\n                nnz *= dimensions[mode_ordering[i_dimension]]\n            elif modes[i_dimension] == Mode.compressed:\n                nnz = cffi_indexes[i_dimension][0][nnz]",
   "            if modes[i_dimension] == Mode.dense:\n                nnz *= dimensions[i_dimension]\n            elif modes[i_dimension] == Mode.compressed:\n                nnz = cffi_indexes[i_dimension][0][nnz]", "C09.axis-typing")
@@ -227,7 +227,7 @@ m("C12-multiply-variables", "C12", "expression/ast.py",
   "    def _unused(self):\n        return None\n\n    def deparse(self):\n        left_string = self.left.deparse()\n        if isinstance(self.left, (Add, Subtract)):", None)
 m("C12-multiply-variables-drops-right", "C12", "expression/ast.py",
   "@dataclass(frozen=True, slots=True)\nclass Multiply(Expression):\n    left: Expression\n    right: Expression\n\n    def variables(self) -> dict[str, list[Tensor]]:\n        variables_mapping = self.left.variables().copy()\n        for name, variables in self.right.variables().items():",
-  "@dataclass(frozen=True, slots=True)\nclass Multiply(Expression):\n    left: Expression\n    right: Expression\n\n    def variables(self) -> dict[str, list[Tensor]]:\n        variables_mapping = self.left.variables().copy()\n        for name, variables in self.left.variables().items():", "C12.rejections")
+  "@dataclass(frozen=True, slots=True)\nclass Multiply(Expression):\n    left: Expression\n    right: Expression\n\n    def variables(self) -> dict[str, list[Tensor]]:\n        variables_mapping = self.left.variables().copy()\n        for name, variables in self.left.variables().items():", "C12.rejection-semantics")
 m("C12-term-level", "C12", "expression/_parser.py",
   "    term = rep1sep(factor, \"*\") > (lambda x: reduce(Multiply, x))\n    expression = term & rep(lit(\"+\", \"-\") & term) > splat(make_expression)",
   "    term = rep1sep(factor, \"+\") > (lambda x: reduce(Add, x))\n    expression = term & rep(lit(\"*\", \"-\") & term) > splat(make_expression)", "C12.grammar")
